@@ -209,12 +209,7 @@ def r2(ctx, R):
         tags[m] = t
     R.check(all(v == ["kwargs.get('tag', abs(self.params.control_order))"] for v in tags.values()), 'ConvergenceController.send/recv/Send/Recv :: the default tag is abs(control_order) on both sides', f'{CCORE}:ConvergenceController', "kwargs.get('tag', abs(self.params.control_order))", tags)
     # (3..) status messages of convergence controllers: Send(slot+1) if not last <-> Recv(slot-1) if not first and not prev_done
-    pairs = [
-        (CC + 'check_convergence.py', 'CheckConvergence.communicate_convergence', 'Send', 'Recv', 'np.empty(1, dtype=bool)'),
-        (CC + 'basic_restarting.py', 'BasicRestartingMPI.determine_restart', 'Send', 'Recv', 'np.empty(3, dtype=bool)'),
-        (CC + 'estimate_embedded_error.py', 'EstimateEmbeddedErrorLinearizedMPI.post_iteration_processing', 'send', 'recv', None),
-    ]
-    for rel, name, sname, rname, buf in pairs:
+    for rel, name, sname, rname, buf in STATUS_PAIRS:
         fn = repo.func(rel, name)
         w = f'{rel}:{name}'
         R.fn(w)
@@ -246,6 +241,82 @@ def r2(ctx, R):
     fn = repo.func(MPI_REL, 'controller_MPI.check_iteration_estimate')
     tg = sorted({_kw(c).get('tag') for c in ast.walk(fn) if isinstance(c, ast.Call) and isinstance(c.func, ast.Attribute) and c.func.attr in ('Irecv', 'Issend')})
     R.check(tg == ['999'], 'controller_MPI.check_iteration_estimate :: Issend/Irecv of the diff use the same tag', f'{MPI_REL}:controller_MPI.check_iteration_estimate', ['999'], tg)
+
+
+STATUS_PAIRS = [
+    (CC + 'check_convergence.py', 'CheckConvergence.communicate_convergence', 'Send', 'Recv', 'np.empty(1, dtype=bool)'),
+    (CC + 'basic_restarting.py', 'BasicRestartingMPI.determine_restart', 'Send', 'Recv', 'np.empty(3, dtype=bool)'),
+    (CC + 'estimate_embedded_error.py', 'EstimateEmbeddedErrorLinearizedMPI.post_iteration_processing', 'send', 'recv', None),
+]
+
+
+@rule('C08', 'C08.R12', 'forward status messages carry the FINAL value: whatever the send reads (status fields, locals) is not written again after the send, so the successor is told `done and prev_done` / the final restart decision, never the raw local flag', floor=3)
+def r12(ctx, R):
+    repo = ctx.repo
+    for rel, name, sname, rname, buf in STATUS_PAIRS:
+        fn = repo.func(rel, name)
+        w = f'{rel}:{name}'
+        R.fn(w)
+        cfg = FuncCFG(fn)
+        s_ = [(n, c) for n in cfg.stmt_of for c in cfg.calls_at(n) if ast.unparse(c.func) == f'self.{sname}']
+        if len(s_) != 1:
+            R.check(False, f'{name} :: exactly one forward {sname}', w, 1, len(s_))
+            continue
+        late, src = _late_writes(cfg, s_[0][0], s_[0][1])
+        R.check(bool(src), f'{name} :: the payload of the {sname} is read from named sources', w, 'at least one source', sorted(src))
+        R.check(not late, f'{name} :: the value sent forward is final (no field of the payload is written after the {sname})', w, 'no assignment to a payload source is reachable from the send (guard-exclusive arms excepted)', late)
+
+
+def _chains(e):
+    """maximal Name/Attribute chains loaded in expression e"""
+    out = set()
+
+    def go(n):
+        if isinstance(n, (ast.Name, ast.Attribute)):
+            b = n
+            while isinstance(b, ast.Attribute):
+                b = b.value
+            if isinstance(b, ast.Name):
+                out.add(ast.unparse(n))
+                return
+        for c in ast.iter_child_nodes(n):
+            go(c)
+
+    go(e)
+    return out
+
+
+def _late_writes(cfg, send_node, call):
+    kw = {k.arg: k.value for k in call.keywords}
+    src = set()
+    bufnames = set()
+    if 'buffer' in kw:
+        b = kw['buffer']
+        b = b.elts[0] if isinstance(b, (ast.List, ast.Tuple)) and b.elts else b
+        if isinstance(b, ast.Name):
+            bufnames.add(b.id)
+    if 'data' in kw:
+        src |= _chains(kw['data'])
+    for n, s in cfg.stmt_of.items():
+        if isinstance(s, ast.Assign) and isinstance(s.targets[0], ast.Subscript) and isinstance(s.targets[0].value, ast.Name) and s.targets[0].value.id in bufnames and cfg.reachable(n, send_node):
+            src |= _chains(s.value)
+    src -= {'self', 'np', 'comm'}
+    gsend = _flat(guards_nnf(facts.guard_strings(cfg, cfg.stmt_of[send_node])))
+    late = []
+    for n, s in cfg.stmt_of.items():
+        if n == send_node or not isinstance(s, (ast.Assign, ast.AugAssign)):
+            continue
+        tg = s.targets if isinstance(s, ast.Assign) else [s.target]
+        names = {ast.unparse(e) for t in tg for e in (t.elts if isinstance(t, ast.Tuple) else [t])}
+        if not (names & src):
+            continue
+        if not cfg.reachable(send_node, n) or cfg.dominates(n, send_node):
+            continue
+        gw = _flat(guards_nnf(facts.guard_strings(cfg, s)))
+        if any((('not', a) in gw) for a in gsend if not isinstance(a, tuple)) or any((isinstance(a, tuple) and a[0] == 'not' and a[1] in gw) for a in gsend):
+            continue
+        late.append(f'line {s.lineno}: {ast.unparse(s)[:80]}')
+    return late, src
 
 
 def _flat(nf):
@@ -393,8 +464,7 @@ def r6(ctx, R):
     repo = ctx.repo
     spec = c02._spec()
     for meth in ('integrate', 'update_nodes', 'compute_end_point'):
-        for rel, cn in c02._impls(repo, sw.QD_MPI, meth):
-            c02._check_sig(R, repo, rel, cn, meth, spec)
+        c02._check_all(R, repo, sw.QD_MPI, meth, spec)
     with open(os.path.join(os.path.dirname(os.path.dirname(__file__)), 'specs', 'transfer_mpi_signatures.json')) as fh:
         tspec = json.load(fh)['signatures']
     rel = 'pySDC/implementations/transfer_classes/BaseTransferMPI.py'
